@@ -468,10 +468,17 @@ def run_random(concepts, case, spec):
             if rng.random() < .08:
                 src = rng.choice([root] + forks)
                 o = rng.choice(others)
-                how = rng.randrange(6)
+                how = rng.randrange(11)
+                so_ = rng.sample(list(src.objects), rng.randint(0, len(src.objects)))
+                sp_ = rng.sample(list(src.properties), rng.randint(0, len(src.properties)))
                 f = call([lambda: src.copy(), lambda: src.union(o, ignore_conflicts=True),
                           lambda: src.intersection(o, ignore_conflicts=True), lambda: src.take(),
-                          lambda: D(*src), lambda: src.take(list(src.objects), list(src.properties), reorder=True)][how])
+                          lambda: D(*src), lambda: src.take(list(src.objects), list(src.properties), reorder=True),
+                          # sub-tables as starting points of further edits: empty selections (documented), partial ones
+                          lambda: src.take([]), lambda: src.take(None, []), lambda: src.take([], []),
+                          lambda: src.take(so_, sp_), lambda: src.take(so_ or None, sp_ or None, reorder=True)][how])
+                if how >= 6:
+                    COL.count('history_forks_from_sub_tables')
                 if f is not RAISED and isinstance(f, D):
                     with core.monitor_code():
                         model_of(f)             # adopted at birth: later edits of its source must not reach it
